@@ -802,6 +802,66 @@ theorem unchecked_counterexample :
       sentLine o ≠ outLine o ∧ blen (sentLine o) = 512 := by
   refine ⟨makeReply (errorEnv cexEnv) (List.replicate 600 'x'), ?_, ?_, ?_, ?_⟩ <;> decide +kernel
 
+/-! ## reply.mores off, nested replies, configuration lookups, the key of the stored stack -/
+
+/-- `reply.mores` off: one message, whatever its size (what `Irc._truncateMsg` then does to it is
+`sentLine_le`); the operator's choice, outside the 512-byte claim -/
+theorem mores_off_single (e : Env) (cfg : Cfg) (chunks : List Str) (s : Str) (allowed : Nat) (s1 : Str) (b : Bool)
+    (hoff : cfg.mores = false) (hprep : prepare e cfg s = some (allowed, s1, b)) :
+    reply e cfg chunks s = .sent [makeReply e s1] none := by
+  obtain ⟨_, hb⟩ := prepare_s1 e cfg s allowed s1 b hprep
+  simp only [hoff, Bool.not_false, Bool.or_true] at hb
+  subst hb
+  unfold reply; rw [hprep]; simp
+
+/-- a nested command's reply reaches the outer command cut to `reply.maximumLength` characters, and then
+goes through the same length-checked branch (all the theorems above apply to the cut text) -/
+theorem nested_arg (n : Nat) (s : Str) : (nestedArg n s).length ≤ n ∧ nestedArg n s <+: s := by
+  unfold nestedArg
+  exact ⟨by simp [List.length_take]; omega, List.take_prefix n s⟩
+
+/-- The 512-byte theorem at the level of one call of `irc.reply`, configuration lookups included: the
+values of `reply.mores.*` are those of the channel `_getTarget` designates, `withNotice` / `inPrivate` /
+`withNickPrefix` those of the channel `_makeReply` replies to (global values otherwise), for every
+combination of `to=`, `private=`, `notice=`, `prefixNick=` and every locale of the table. -/
+theorem fits_512_call (c : Call) (ha : c.action = false) (hT : TextsFine c.texts) (chunks : List Str) (s : Str)
+    (allowed : Nat) (s1 : Str)
+    (hauto : c.cfg.moresLength = 0)
+    (hprep : prepare c.env c.cfg s = some (allowed, s1, false))
+    (hE : blen c.texts.emptyReply ≤ allowed)
+    (hcontract : chunks.flatten = munge s1) (hne : ∀ x ∈ chunks, x ≠ [])
+    (h4 : suffixReserve c.texts (blen s1) + (parse s1).maxSize + 4 ≤ allowed)
+    (hclean : cleanWrap chunks s1 (allowed - suffixReserve c.texts (blen s1)) = true) :
+    ∃ now stored, replyCall c.env c.cfg chunks s = .sent now stored ∧
+      ∀ o ∈ now ++ stored.getD [], blen (wire c.env o) ≤ 512 := by
+  have hn := call_env_normal c ha
+  rw [replyCall_normal c.env hn.1]
+  exact fits_512_clean c.env hn hT c.cfg chunks s allowed s1 hauto hprep hE hcontract hne h4 hclean
+
+/-- where a chunked reply is stored: under the `user@host` of `to` when it is a nick the bot knows,
+else under the requester's; `more_protocol_interleaved` then applies to THAT hostmask -/
+theorem storeMask_cases (c : Call) :
+    c.storeMask = (match split1 '!' (match c.to with
+        | some t => if !t.isEmpty && c.toIsNick then c.toHostmask.getD c.msgPrefix else c.msgPrefix
+        | none => c.msgPrefix) with
+      | some (_, rest) => rest
+      | none => []) := rfl
+
+def exCall : Call :=
+  { botPrefix := "test!u@h".toList, msgPrefix := "alice!al@host.a".toList, nick := "alice".toList,
+    msgTarget := "#chan".toList, msgIsChannel := true, to := some "bob".toList, pubTo := false, pubNick := false,
+    pubMsgTarget := true, chanTo := false, chanMsgTarget := true, toIsNick := true,
+    toHostmask := some "bob!bo@host.b".toList, notice := none, priv := none, prefixNick := none, action := false,
+    stripCtcp := true, texts := Texts.english, noticeWhenPrivate := true,
+    confGlobal := ⟨false, false, true, false, false, true, 0, 50, 1⟩,
+    confChan := some ("#chan".toList, ⟨true, false, false, false, false, true, 60, 3, 2⟩) }
+
+/-- the reply to alice with `to='bob'` (a known nick) is stored under bob's `user@host`; the values of
+#chan are used: NOTICE, no nick prefix, length 60, maximum 3, instant 2 -/
+example : exCall.storeMask = "bo@host.b".toList ∧ exCall.cfg = ⟨60, 3, 2, true⟩ ∧
+    replyFrame exCall.env = (Gen.noticeCmd, "#chan".toList, []) ∧ exCall.action = false ∧ TextsFine exCall.texts := by
+  decide
+
 /-! ## non-vacuity: a concrete chunked reply meets the hypotheses of the theorems above -/
 
 def exEnv : Env :=
